@@ -972,6 +972,9 @@ func init() {
 				}
 			}
 		}
+		covDirect, covRuns := covC07(o.seed) // gen_cov.go: default expiration, facts, reserved-form facts, failing builders
+		direct = append(direct, covDirect...)
+		nverify += covRuns
 		return writeJSON(o.out, "stats.json", map[string]any{"tokens": n, "verify_calls": nverify, "alterations_checked": nalter,
 			"option_masks_covered": len(optHist), "alteration_histogram": altHist, "collision_histogram": collHist, "sign_cases": len(signCases), "issue_refused": nrefused, "direct_violations": direct, "samples": samples, "issued_but_undecodable": undecodable,
 			"value_kinds": cst})
